@@ -226,6 +226,10 @@ func buildFork(e *env) (post func() string) {
 		p := intPort("out", fork.Filter(ctx, par, ro, forkF(e, sc.pred)))
 		p.validate = e.multisetValidator("fork.filter", want, true)
 		e.ports = []*port{p}
+		if sc.Mode == "lift" || sc.Mode == "try" {
+			// a predicate that returns errors: nothing is stated about which elements pass, only nothing invented or duplicated
+			p.validate = e.multisetValidator("fork.filter (predicate returns errors)", input, false)
+		}
 		return callsOnce
 	case "fork.partition":
 		l, r := []int{}, []int{}
@@ -240,6 +244,9 @@ func buildFork(e *env) (post func() string) {
 		p, q := intPort("left", lo), intPort("right", ro2)
 		p.validate, q.validate = e.multisetValidator("fork.partition/left", l, true), e.multisetValidator("fork.partition/right", r, true)
 		e.ports = []*port{p, q}
+		if sc.Mode == "lift" || sc.Mode == "try" {
+			p.validate, q.validate = e.multisetValidator("fork.partition/left (predicate returns errors)", input, false), e.multisetValidator("fork.partition/right (predicate returns errors)", input, false)
+		}
 		return callsOnce
 	case "fork.forEach":
 		p := donePort("done", fork.ForEach(ctx, par, ro, forkF(e, func(x int) int { return x })))
